@@ -154,7 +154,7 @@ class PythonDuplicateAnalyzer(BaseTokenAnalyzer):  # thailint: ignore[srp.violat
         """
         try:
             tree = ast.parse(content)
-        except SyntaxError:
+        except (SyntaxError, RecursionError, MemoryError):
             return set()
 
         docstring_lines: set[int] = set()
@@ -285,5 +285,5 @@ class PythonDuplicateAnalyzer(BaseTokenAnalyzer):  # thailint: ignore[srp.violat
         """Parse content, returning None on syntax error."""
         try:
             return ast.parse(content)
-        except SyntaxError:
+        except (SyntaxError, RecursionError, MemoryError):
             return None
